@@ -142,7 +142,7 @@ def user_class(aa, name):
 ROUTES = {}
 CTX = {"prov": "fresh", "gprov": 0, "aprov": 0, "fkind": "float", "pkind": "float", "rng": None, "made": [], "geoms": [], "args": [], "memo": None}
 MASK_PROVS = ["fresh", "fresh", "fresh", "list", "resized", "sliced", "array_mask", "grid_mask", "copy", "pickle", "edited",
-              "edited_all_false", "inverted", "dataset_mask", "derived_edge", "used", "typed_array", "subclass"]
+              "edited_all_false", "inverted", "dataset_mask", "derived_edge", "used", "typed_array", "subclass", "origin_assigned"]
 
 def mask_fp(mask):
     return ([[bool(b) for b in r] for r in np.array(mask)], (fr(mask.pixel_scales[0]), fr(mask.pixel_scales[1])),
@@ -169,6 +169,14 @@ def build_mask(aa, m, ps, o, prov, r):
     if prov == "typed_array":       # the boolean array handed over as an integer / float / uint8 / object array, or as nested int lists
         dt = r.choice([int, float, np.uint8, np.float32, object, "intlist"])
         return aa.Mask2D(mask=[[int(b) for b in row] for row in m] if dt == "intlist" else np.array(m, dtype=bool).astype(dt), **kw)
+    if prov == "origin_assigned":
+        # read -> in-place edit of the FRAME by the user -> re-read: the object is built at another origin, every geometry-valued
+        # property is read from it, then its origin attribute is assigned
+        o0 = (o[0] + ps[0] * F(r.randint(-8, 8), 4), o[1] - ps[1] * F(r.randint(1, 8), 4))
+        mask = fresh_mask(aa, m, ps, o0)
+        read_everything(aa, mask)
+        mask.origin = kw["origin"]
+        return mask
     if prov == "subclass":
         cls = user_class(aa, "Mask2D")
         return cls(mask=np.array(m, dtype=bool), **kw) if r.random() < 0.7 else cls(mask=np.array(m, dtype=bool), **kw).copy()
@@ -1288,7 +1296,7 @@ PARAMS = {
                                    "defl": [(rng.randint(-8, 8), rng.randint(-8, 8)) for _ in range(len(m) * len(m[0]))],
                                    "coords": [(ps[0] * F(rng.randint(-12, 12), 4), ps[1] * F(rng.randint(-12, 12), 4)) for _ in range(rng.randint(1, 3))],
                                    "aslist": rng.random() < 0.5, "dist": min(ps) * F(rng.choice([3, 5, 7, 11]), 8) * rng.choice([1, 1, 2]),
-                                   "buf": min(ps) * F(rng.choice([1, 2, 4]), 4)},
+                                   "buf": min(ps) * F(rng.choice([1, 2, 4]), 4) if max(ps) <= 16 * min(ps) else F(0)},     # (one buffer for both axes: commensurable scales only)
     "util": lambda rng, m, ps: {"pts": pts_for(rng, m, ps), "pix": [(F(rng.randint(-8, 40), 4), F(rng.randint(-8, 40), 4)) for _ in range(4)]},
     "one_d": lambda rng, m, ps: {"alt": rng.random() < 0.5, "row": [rng.random() < 0.4 for _ in range(rng.randint(1, 9))],
                                  "pts": [[ps[ax] * F(rng.randint(-40, 40), 8) for _ in range(5)] for ax in (0, 1)],
